@@ -405,7 +405,10 @@ def PItem.cons : PItem → PItems → PItems
   | .clause cj m c, rest => .clause cj m c rest
 
 mutual
-  /-- `query = { (multiterm | (modifiers? ~ clause)) ~ (multiterm | (conjunction? ~ modifiers? ~ clause))* }` -/
+  /-- `query = { (multiterm | (modifiers? ~ clause)) ~ (multiterm | (conjunction? ~ modifiers? ~ clause))* }`,
+      i.e. `A skip (B (skip B)*)?` with `A` = the first element and `B` the later ones.  `more` is
+      `(skip B)*`; since the first `B` of the repetition is tried right after a `skip`, `B (skip B)*`
+      at `skip r` is `more r`, except that when nothing matches the position stays after the `skip`. -/
   def query : Nat → Inp → PRes PItems
     | 0, _ => .oof
     | fuel + 1, s =>
@@ -413,15 +416,11 @@ mutual
       | .oof => .oof
       | .fail => .fail
       | .ok it r =>
-        -- `~` : skip, then the repetition `(B (skip B)*)?`
-        match item fuel true (skipWs r) with
+        match more fuel r with
         | .oof => .oof
-        | .fail => .ok (it.cons .nil) (skipWs r)
-        | .ok it2 r2 =>
-          match more fuel r2 with
-          | .oof => .oof
-          | .fail => .fail
-          | .ok its r3 => .ok (it.cons (it2.cons its)) r3
+        | .fail => .fail
+        | .ok .nil _ => .ok (it.cons .nil) (skipWs r)
+        | .ok its r3 => .ok (it.cons its) r3
   /-- `(skip ~ B)*` -/
   def more : Nat → Inp → PRes PItems
     | 0, _ => .oof
